@@ -1,12 +1,12 @@
 CONSTANTS
-  Clients = {1, 2}
+  Clients = {1}
   MaxWorkers = 1
   Runtimes = {"threaded"}
   MaxReq = 1
   Kinds = {"close", "keep", "ws"}
   SigTwice = FALSE
-  Dev = {"AbortOnStop"}
-  Faults = {}
+  Dev = {"AcceptErrorsRetriedInside"}
+  Faults = {"nofd"}
 SPECIFICATION Spec
-INVARIANTS Inv_NoTruncation
+PROPERTIES Live_RunReturns
 CHECK_DEADLOCK FALSE
